@@ -238,6 +238,7 @@ func c04(c *core.Check) {
 	// ---- R8 relative units
 	c04RelativeUnits(c)
 	c04FontSizeArg(c)
+	c04NoDeclarations(c)
 
 	// ---- R9 computed values are per element: a computer function never converts the declared value in place
 	r9 := c.Rule("R9", "no computer function writes through the declared value it receives (it belongs to the stylesheet or to the initial values and is shared by every element the rule matches): otherwise the first element computed fixes the value of all the others", 30)
@@ -1438,5 +1439,76 @@ func c04FontSizeArg(c *core.Check) {
 			continue
 		}
 		r.Cond(isFS, key, p.Pos(cs.Pos()), "derived from a computed font size", "the reference font size is neither a negative constant nor derived from a computed font size")
+	}
+}
+
+// c04NoDeclarations: an element no declaration applies to is still an element.
+func c04NoDeclarations(c *core.Check) {
+	p := c.Prog
+	r := c.Rule("R13", "an element without any declaration gets computed values like any other: setComputedStyles never hands computedFromCascaded the bare result of a lookup in the cascaded styles (nil for a missing key, and a nil cascaded style means `anonymous box`, whose initial values are not computed) — the missing entry is replaced by an empty style first", 1)
+	fn := p.Method("html/tree", "StyleFor", "setComputedStyles")
+	if fn == nil {
+		r.Anchor("html/tree.(*StyleFor).setComputedStyles")
+		return
+	}
+	n := 0
+	core.Instrs(fn, func(in ssa.Instruction) {
+		call, ok := in.(*ssa.Call)
+		if !ok || call.Call.StaticCallee() == nil || call.Call.StaticCallee().Name() != "computedFromCascaded" || len(call.Call.Args) < 2 {
+			return
+		}
+		n++
+		arg := call.Call.Args[1]
+		why := ""
+		var nilable func(v ssa.Value, d int) string
+		nilable = func(v ssa.Value, d int) string {
+			if d > 5 {
+				return ""
+			}
+			switch x := v.(type) {
+			case *ssa.Lookup:
+				return "the result of a map lookup"
+			case *ssa.Extract:
+				if lk, ok := x.Tuple.(*ssa.Lookup); ok && x.Index == 0 {
+					// the comma-ok form: nil only on the path where ok is false; a phi must replace it there
+					_ = lk
+					return "the result of a map lookup"
+				}
+			case *ssa.Const:
+				if x.Value == nil {
+					return "nil"
+				}
+			case *ssa.Phi:
+				// every edge that may be nil must be excluded by the other edges: require that at least one edge is a
+				// fresh map and that lookup edges are taken only under the `found` flag (comma-ok)
+				fresh, lookup := false, false
+				for _, e := range x.Edges {
+					switch y := e.(type) {
+					case *ssa.MakeMap:
+						fresh = true
+					case *ssa.Extract:
+						if _, ok := y.Tuple.(*ssa.Lookup); ok {
+							lookup = true
+						}
+					default:
+						if w := nilable(e, d+1); w != "" {
+							return w
+						}
+					}
+				}
+				if lookup && !fresh {
+					return "the result of a map lookup"
+				}
+				return ""
+			case *ssa.MakeMap:
+				return ""
+			}
+			return ""
+		}
+		why = nilable(arg, 0)
+		r.Cond(why == "", "html/tree.setComputedStyles | cascaded style handed to computedFromCascaded", p.Pos(call.Pos()), "a looked-up style, or a fresh empty one when there is none", "the cascaded style is "+why+": an element without declarations is computed as an anonymous box (initial values such as `medium` border widths are never resolved)")
+	})
+	if n == 0 {
+		r.Anchor("setComputedStyles: call of computedFromCascaded")
 	}
 }
